@@ -97,7 +97,7 @@ impl Engine for SplitSweep {
     }
 }
 
-pub const RULE: &str = "histories over {read(n), fill_buf, consume(k<=avail), then optionally into_iter() for the rest (sample reader)} (no seeks) on each of the four buffered front-ends, opened with \
+pub const RULE: &str = "histories over {read(n), fill_buf, consume(k<=avail), then optionally into_iter() or read_to_end() for the rest (sample reader)} (no seeks) on each of the four buffered front-ends, opened with \
 the non-seekable constructor over a source that hands out data in chosen segments; the history is continued until the reader signals \
 the end and then polled up to 3 more times. Oracle: the concatenation of everything returned equals the decoded PCM exactly once (byte \
 readers: serialised at ceil(bps/8) bytes in the selected order; channel reader: de-interleaved), every poll after the end signals the \
@@ -121,9 +121,19 @@ pub fn run(ctx: &Ctx) {
             proptest::collection::vec(op_strategy(false), 1..40),
             prop_oneof![2 => Just(vec![]), 1 => Just(vec![1u16]), 2 => proptest::collection::vec(1u16..64, 1..5)],
             0u8..=3,
-            prop_oneof![2 => Just(false), 1 => Just(true)],
+            prop_oneof![3 => Just(0u8), 1 => Just(1u8), 1 => Just(2u8)],
+            prop_oneof![3 => Just(0u16), 1 => 1u16..300],
         )
-            .prop_map(|(file, reader, ops, segs, extra_polls, iterate_tail)| HistCase { file, reader, ops, segs, extra_polls, iterate_tail })
+            .prop_map(|(file, reader, ops, segs, extra_polls, tail, prefix)| HistCase {
+                file,
+                reader,
+                ops,
+                segs,
+                extra_polls,
+                iterate_tail: tail == 1,
+                read_to_end_tail: tail == 2,
+                prefix,
+            })
             .boxed()
     });
     // every split point of small files
